@@ -277,7 +277,11 @@ class OrderManager:
 
         # For the base amount we truncate instead of rounding to avoid exceeding available liquidity.
         if (base_amount := balance_updates.get(pair.base_symbol)) is not None:
-            balance_updates[pair.base_symbol] = core_helpers.truncate_decimal(base_amount, pair_info.base_precision)
+            truncated_base_amount = core_helpers.truncate_decimal(base_amount, pair_info.base_precision)
+            balance_updates[pair.base_symbol] = truncated_base_amount
+            # If the base amount got truncated the quote amount has to be adjusted too in order to keep the price.
+            if truncated_base_amount != base_amount and pair.quote_symbol in balance_updates:
+                balance_updates[pair.quote_symbol] *= truncated_base_amount / base_amount
 
         # For the quote amount we simply round.
         if (quote_amount := balance_updates.get(pair.quote_symbol)) is not None:
